@@ -190,7 +190,9 @@ fn main() {
 
     // ---------------- corpus: witnesses of the known findings ----------------
     for s in ["+\t*", "- *", "a + *^", "x -\n*)"] { cx.grammar_checks(s, "corpus-F12", true); }
-    for s in [", TO /", "/ab", "f:/ab", "a /x"] { cx.grammar_checks(s, "corpus-F13", true); }
+    for s in [", TO /", "/ab", "f:/ab", "a /x", "n:[1 TO 5 ]", "NOT\ta"] { cx.grammar_checks(s, "corpus-F13", true); }
+    for s in ["IN[\u{a0}x", "f: IN [a \u{3000}"] { cx.grammar_checks(s, "corpus-F162", true); }
+    for s in ["hello\nbody:y", "a\tb:c"] { cx.grammar_checks(s, "corpus-F160", true); }
 
     // ---------------- (a) printed concrete queries ----------------
     let n_q = if thorough { 6000 } else { 330 };
